@@ -127,6 +127,10 @@ func (s *appStream) boot(r *tr.Rng) {
 		p.SignedBlocksWindow, p.MaxMissedPerWindow, p.DowntimeJailDuration = win, maxMissed, jail
 		p.UnlockDuration, p.ExitingDuration, p.HalvingInterval = unlockD, exitD, halving
 	}
+	if strings.HasPrefix(s.profile, "app-export") && r.Chance(35) {
+		// a young bitcoin side chain: voted hashes reach down to height 0 (an export lists tip+1 hashes)
+		cfg.BtcStartHeight, cfg.BtcFullHistory = uint64(1+r.Intn(4)), true
+	}
 	sim, err := appsim.New(cfg)
 	if err != nil {
 		panic(err)
@@ -623,12 +627,15 @@ func (s *appStream) genBlock(r *tr.Rng) {
 	ethCls := ""
 	ethTimeout := uint64(height)
 	malformed := s.profile == "app-malformed"
-	if malformed || r.Chance(4) || (s.profile == "app-guard" && r.Chance(25)) {
+	if malformed || r.Chance(4) || (s.profile == "app-guard" && r.Chance(25)) || (s.profile == "app-det" && r.Chance(12)) {
 		// a defective execution-block message in the finalised block (C06: it consumes nothing; C19: it
 		// is an error, never a crash)
 		m := clonePayload(eb.Payload)
 		var mp *goatmod.ExecutionPayload = m
-		sel := r.Intn(pick(malformed, 18, 30))
+		sel := r.Intn(pick(malformed, 19, 31))
+		if s.profile == "app-det" && r.Chance(40) {
+			sel = 18
+		}
 		if s.profile == "app-guard" && r.Chance(50) {
 			sel = 11 + r.Intn(2) // the guard's timeout-height rule for the execution-block message
 		}
@@ -681,6 +688,8 @@ func (s *appStream) genBlock(r *tr.Rng) {
 			} else if m.BlockNumber > 0 {
 				m.BlockNumber--
 			}
+		case 18: // the proposer's clock is ahead of this replica's: executing a committed block must not look at the wall clock (C07)
+			ethCls, m.Timestamp = "/timestamp-ahead-of-local-clock", uint64(time.Now().Unix())+uint64(60+r.Intn(7200))
 		case 11: // the execution-block message is admissible only with timeout height == block height
 			ethCls, ethTimeout = "/timeout-unset", 0
 		case 12:
@@ -803,6 +812,9 @@ func (s *appStream) genBlock(r *tr.Rng) {
 	pl := eb.Payload
 	eo := tr.NewOp("ethblock", "tx.ethblock", "ante", "finalize", "signer", sdk.AccAddress(proposer).String(), "signers", 1, "memo", 0, "timeout", ethTimeout, "height", height,
 		"sigok", "1", "seqok", "1", "time", s.now, "proposer", tr.Hex(proposer), "comet", tr.Hex(proposer), "headerhash", tr.Hex(sim.BlockHash(height)))
+	if strings.Contains(ethCls, "timestamp-ahead") {
+		eo.Add("tsahead", "1") // an honest payload in every respect the state transition may look at; only its timestamp is ahead of this machine's clock
+	}
 	var bridge goattypes.BridgeRequests
 	var relayer goattypes.RelayerRequests
 	var locking goattypes.LockingRequests
@@ -903,8 +915,28 @@ func (s *appStream) genBlock(r *tr.Rng) {
 				lr = "-"
 			}
 		}
-		eo.Add("lrobs", tr.B(lr != "-"))
-		s.emit(eo, "ok lr="+lr)
+		// br: does the bitcoin + goat part round-trip (what GoatModel.GenesisBtc models)?  The comparison stops at the first
+		// difference (relayer, bitcoin, locking, goat state; then the second exports; then the validator set), so another
+		// module's failure leaves the answer open ("-")
+		br := "1"
+		if eo.Str("same") == "0" {
+			d := eo.Str("detail")
+			low := strings.ToLower(d)
+			switch {
+			case strings.HasPrefix(d, "state-differs:btc:"), strings.HasPrefix(d, "state-differs:goat:"),
+				strings.HasPrefix(d, "second-export-differs:module1"), strings.HasPrefix(d, "second-export-differs:module3"):
+				br = "0"
+			case (strings.HasPrefix(d, "import:") || strings.HasPrefix(d, "panic:")) && lr != "0" &&
+				(strings.Contains(low, "tax") || strings.Contains(low, "deposit") || strings.Contains(low, "block_hash") || strings.Contains(low, "block hash") ||
+					strings.Contains(low, "confirmation") || strings.Contains(low, "pubkey") || strings.Contains(low, "network") || strings.Contains(low, "withdrawal") ||
+					strings.Contains(low, "processing") || strings.Contains(low, "magic") || strings.Contains(low, "eth_tx") || strings.Contains(low, "is_duplicated")):
+				br = "0"
+			default:
+				br = "-"
+			}
+		}
+		eo.Add("lrobs", tr.B(lr != "-")).Add("brobs", tr.B(br != "-"))
+		s.emit(eo, "ok lr="+lr+" br="+br)
 	}
 	if dump || halt {
 		s.emitDumps()
@@ -921,6 +953,9 @@ func payloadArgs(o *tr.Op, pl *goatmod.ExecutionPayload, tsfuture bool) {
 	if pl == nil {
 		o.Add("haspayload", "0")
 		return
+	}
+	if pl.Timestamp > uint64(time.Now().Unix())+30 {
+		tsfuture = true // stated from the payload itself (the block message may carry a timestamp ahead of this machine's clock)
 	}
 	o.Add("haspayload", "1").Add("parent", tr.Hex(pl.ParentHash)).Add("feerecip", tr.Hex(pl.FeeRecipient)).Add("number", pl.BlockNumber).
 		Add("hash", tr.Hex(pl.BlockHash)).Add("blob", pl.BlobGasUsed).Add("beacon", tr.Hex(pl.BeaconRoot)).Add("extra", tr.Hex(pl.ExtraData)).
